@@ -55,14 +55,30 @@ func c12Value(o *out, c hcfg, probe *hdrhist.Histogram, v int64) {
 		h.Min(), h.Max(), h.ValueAtQuantile(100), idx, le, he, sz)
 }
 
-func c12Seq(o *out, c hcfg, vs []int64) {
-	h := hdrhist.New(c.lo, c.hi, c.s)
+// recordRuns records vs; with grouped set, a run of k equal neighbours goes in as one RecordValues(v, k), which is the
+// same as k RecordValue(v) calls (k rejections when the value is out of range). Returns the number of rejections.
+func recordRuns(h *hdrhist.Histogram, vs []int64, grouped bool) int {
 	nrej := 0
-	for _, v := range vs {
-		if h.RecordValue(v) != nil {
+	for i := 0; i < len(vs); {
+		j := i + 1
+		for grouped && j < len(vs) && vs[j] == vs[i] {
+			j++
+		}
+		if j-i > 1 {
+			if h.RecordValues(vs[i], int64(j-i)) != nil {
+				nrej += j - i
+			}
+		} else if h.RecordValue(vs[i]) != nil {
 			nrej++
 		}
+		i = j
 	}
+	return nrej
+}
+
+func c12Seq(o *out, c hcfg, vs []int64) {
+	h := hdrhist.New(c.lo, c.hi, c.s)
+	nrej := recordRuns(h, vs, len(vs)%2 == 1)
 	o.printf("D %d %d %d %d", c.lo, c.hi, c.s, len(vs))
 	for _, v := range vs {
 		o.printf(" %d", v)
